@@ -202,6 +202,12 @@ def prop(spec, rec):
 
 # ------------------------------------------------------------------ generator
 
+# pilots too small to matter physically but not zero: the bundled greedy algorithm with a rampdown
+# estimator (up_increment 0) hands a full car its last actual rate, ~2e-14 A (D14).  Used by the
+# bounds check C03; the law oracle of C14 itself divides by the pilot-induced SoC step and keeps
+# to pilots >= 1e-8 A.
+TINY_PILOT = st.sampled_from([5e-324, 1e-300, 1e-20, 2.08e-14, 1e-12, 1e-10])
+
 PILOT = st.one_of(
     st.just(0.0),
     st.sampled_from([6.0, 8.0, 16.0, 32.0, 80.0]),
